@@ -9,6 +9,7 @@ import (
 	"fmt"
 	"hash/crc32"
 	"io"
+	"math"
 	"os"
 	"reflect"
 	"unsafe"
@@ -230,7 +231,15 @@ func readFileHeader(r Reader) (fh FileHeader, err error) {
 			break
 		}
 		if count < 0 {
-			return fh, fmt.Errorf("negative block size not supported in file header")
+			// As for any Avro map, a negative count is followed by the size of
+			// the block in bytes, which we have no use for.
+			if count == math.MinInt64 {
+				return fh, fmt.Errorf("invalid count of map block in file header")
+			}
+			count = -count
+			if _, err := binary.ReadVarint(r); err != nil {
+				return fh, fmt.Errorf("failed to read size of map block. %w", err)
+			}
 		}
 
 		for ; count > 0; count-- {
